@@ -64,8 +64,15 @@ def check_lookup(chk, ix):
                 steps = st.alloc(HObj("dict", kind="dict", items=[(k_, st.alloc(HObj("list", kind="list", items=v, label="registry.steps[%s]" % k_)))
                                                                    for k_, v in lists.items()], label="registry.steps"))
                 stubs = {"DefTok.match": lambda it, s, a, k, n: [(s, "val", ("match-of", s.obj(a[0]).fields["name"]) if s.obj(a[0]).fields["hit"] else None)]}
+                stubs["BadStepDefinitionErrorHandler"] = lambda it_, s_, a, k, n: [(s_, "val", s_.alloc(HObj("HandlerTok", {}, open=True)))]
                 it = Interp(ix, stubs=stubs, on_event=rec, name="StepRegistry." + meth)
-                reg = st.alloc(HObj(rc, {"steps": steps}, label="registry"))
+                # the registry as its own __init__ makes it (whatever private fields it has), then filled with the definitions
+                reg = st.alloc(HObj(rc, {}, label="registry"))
+                o0 = it.call_function(st, rc.lookup("__init__"), [], {}, None, self_val=reg)
+                if len(o0) != 1 or o0[0][1] != "val" or o0[0][0] is not st:
+                    raise AnalysisError("StepRegistry.__init__ not evaluable")
+                st.wobj(reg).fields["steps"] = steps
+                muts[:] = []
                 step = st.alloc(HObj("StepTok", {"step_type": stype, "name": "text"}, label="step"))
                 st.freeze_base()
                 outs = it.run(f, st, [step], {}, self_val=reg)
@@ -116,7 +123,12 @@ def check_registration(chk, ix):
             it = Interp(ix, stubs=stubs, name="add_step_definition")
             lst = st.alloc(HObj("list", kind="list", items=list(exist), label="given definitions"))
             steps = st.alloc(HObj("dict", kind="dict", items=[("given", lst), ("step", st.alloc(HObj("list", kind="list", items=[])))]))
-            reg = st.alloc(HObj(rc, {"steps": steps}, label="registry"))
+            it.stubs["BadStepDefinitionErrorHandler"] = lambda it_, s_, a, k, n: [(s_, "val", s_.alloc(HObj("HandlerTok", {}, open=True)))]
+            reg = st.alloc(HObj(rc, {}, label="registry"))
+            o0 = it.call_function(st, rc.lookup("__init__"), [], {}, None, self_val=reg)
+            if len(o0) != 1 or o0[0][1] != "val" or o0[0][0] is not st:
+                raise AnalysisError("StepRegistry.__init__ not evaluable")
+            st.wobj(reg).fields["steps"] = steps
             outs = it.call_function(st, f, ["Given", "pattern text", Top("func", True)], {}, None, self_val=reg)
             chk.absorb(it)
             chk.instance("M3")
